@@ -129,3 +129,88 @@ fn wire_tuple() {
     assert!(w.len() == 7);
     assert!(<(u32, u8, u16)>::unpack_from_slice(&buf) == Ok(t));
 }
+
+//@h name=wire_floats props=C19 fn=ethercrab-wire/src/impls.rs::impl_primitive_wire_field obligation="f32 / f64: pack = the IEEE-754 bit pattern little endian, unpack rebuilds exactly that bit pattern (NaN payloads included) from the first 4 / 8 bytes, a short buffer is refused - for every bit pattern"
+#[cfg_attr(kani, kani::proof)]
+#[cfg_attr(all(test, verif_replay), test)]
+fn wire_floats() {
+    let b32: u32 = vk::any();
+    let v = f32::from_bits(b32);
+    assert!(<f32 as EtherCrabWireWriteSized>::pack(&v) == b32.to_le_bytes());
+    assert!(<f32 as EtherCrabWireSized>::PACKED_LEN == 4 && v.packed_len() == 4);
+    let raw: [u8; 6] = vk::any_array();
+    match <f32 as EtherCrabWireRead>::unpack_from_slice(&raw) {
+        Ok(x) => assert!(x.to_bits() == u32::from_le_bytes([raw[0], raw[1], raw[2], raw[3]])),
+        Err(_) => assert!(false, "four bytes always decode"),
+    }
+    assert!(<f32 as EtherCrabWireRead>::unpack_from_slice(&raw[..3]).is_err());
+    let b64: u64 = vk::any();
+    let w = f64::from_bits(b64);
+    assert!(<f64 as EtherCrabWireWriteSized>::pack(&w) == b64.to_le_bytes());
+    assert!(<f64 as EtherCrabWireSized>::PACKED_LEN == 8 && w.packed_len() == 8);
+    let raw8: [u8; 9] = vk::any_array();
+    match <f64 as EtherCrabWireRead>::unpack_from_slice(&raw8) {
+        Ok(x) => assert!(x.to_bits() == u64::from_le_bytes([raw8[0], raw8[1], raw8[2], raw8[3], raw8[4], raw8[5], raw8[6], raw8[7]])),
+        Err(_) => assert!(false, "eight bytes always decode"),
+    }
+    assert!(<f64 as EtherCrabWireRead>::unpack_from_slice(&raw8[..7]).is_err());
+}
+
+//@h name=wire_heapless_vec props=C19 fn=ethercrab-wire/src/impls.rs::heapless::Vec obligation="heapless::Vec<u16, 3>: a buffer of any length 0..=8 unpacks to its whole little-endian words in order, at most 3 of them (trailing odd byte and words beyond the capacity ignored), never a panic; Vec<u8, 4>: PACKED_LEN 4 and buffer() of 4 bytes"
+#[cfg_attr(kani, kani::proof)]
+#[cfg_attr(kani, kani::unwind(10))]
+#[cfg_attr(all(test, verif_replay), test)]
+fn wire_heapless_vec() {
+    let raw: [u8; 8] = vk::any_array();
+    let n: usize = vk::any();
+    vk::assume(n <= 8);
+    let r = <heapless::Vec<u16, 3> as EtherCrabWireRead>::unpack_from_slice(&raw[..n]);
+    let want_len = if n / 2 < 3 { n / 2 } else { 3 };
+    match r {
+        Ok(v) => {
+            assert!(v.len() == want_len);
+            let mut i = 0;
+            while i < want_len {
+                assert!(v[i] == u16::from_le_bytes([raw[2 * i], raw[2 * i + 1]]));
+                i += 1;
+            }
+        }
+        Err(_) => assert!(false, "whole words always decode"),
+    }
+    assert!(<heapless::Vec<u8, 4> as EtherCrabWireSized>::PACKED_LEN == 4);
+    assert!(<heapless::Vec<u8, 4> as EtherCrabWireSized>::buffer().len() == 4);
+}
+
+//@h name=wire_heapless_string props=C19 bounded="String<3>, buffers of 0..=4 bytes (UTF-8 validation loop unrolled for 4 bytes)" fn=ethercrab-wire/src/impls.rs::heapless::String obligation="heapless::String<3>: ASCII bytes unpack to exactly those characters; a buffer longer than the capacity is ArrayLength; a byte >= 0x80 that is no valid UTF-8 start is InvalidUtf8; never a panic; PACKED_LEN / buffer() = capacity"
+#[cfg_attr(kani, kani::proof)]
+#[cfg_attr(kani, kani::unwind(8))]
+#[cfg_attr(all(test, verif_replay), test)]
+fn wire_heapless_string() {
+    let raw: [u8; 4] = vk::any_array();
+    let n: usize = vk::any();
+    vk::assume(n <= 4);
+    let ascii = (n < 1 || raw[0] < 0x80) && (n < 2 || raw[1] < 0x80) && (n < 3 || raw[2] < 0x80) && (n < 4 || raw[3] < 0x80);
+    let r = <heapless::String<3> as EtherCrabWireRead>::unpack_from_slice(&raw[..n]);
+    match r {
+        Ok(s) => {
+            assert!(n <= 3 && s.len() == n);
+            let b = s.as_bytes();
+            let mut i = 0;
+            while i < n {
+                assert!(b[i] == raw[i]);
+                i += 1;
+            }
+        }
+        Err(e) => {
+            assert!(!(ascii && n <= 3), "ASCII text that fits the capacity always decodes");
+            if ascii {
+                assert!(e == WireError::ArrayLength);
+            }
+            if n >= 1 && raw[0] >= 0x80 && raw[0] < 0xc2 {
+                assert!(e == WireError::InvalidUtf8);
+            }
+        }
+    }
+    assert!(<heapless::String<3> as EtherCrabWireSized>::PACKED_LEN == 3);
+    assert!(<heapless::String<3> as EtherCrabWireSized>::buffer().len() == 3);
+}
